@@ -32,6 +32,8 @@
 #include <validation.h>
 
 #include <bit>
+#include <fstream>
+#include <iostream>
 
 namespace {
 using valtype = std::vector<unsigned char>;
@@ -541,6 +543,34 @@ int main(int argc, char** argv)
     static_assert(NBITS <= 24);
     const uint64_t NF = uint64_t{1} << NBITS;
 
+    if (!vx::ctx().replay.empty()) {
+        // replay: re-evaluate the recorded triple under the recorded flag sets (flags_small / flags_big / flags lines) and print the verdicts
+        ECC_Context ecc_r;
+        std::ifstream f(vx::ctx().replay);
+        std::string line; Triple t; t.name = "replay";
+        std::vector<std::pair<std::string, std::string>> fl;
+        auto field = [](const std::string& l, const std::string& k) { size_t a = l.find(k); if (a == std::string::npos) return std::string(); a += k.size(); size_t b = l.find_first_of(" ]", a); return l.substr(a, b == std::string::npos ? std::string::npos : b - a); };
+        while (std::getline(f, line)) {
+            if (line.empty() || line[0] == '#') continue;
+            if (line.rfind("flags", 0) == 0) { size_t sp = line.find(' '); fl.emplace_back(line.substr(0, sp), line.substr(sp + 1)); continue; }
+            if (line.find("scriptPubKey=") == std::string::npos) continue;
+            auto ss = ParseHex(field(line, "scriptSig=")), pk = ParseHex(field(line, "scriptPubKey="));
+            t.scriptSig = CScript(ss.begin(), ss.end()); t.scriptPubKey = CScript(pk.begin(), pk.end());
+            size_t a = line.find("witness=["), b = line.rfind(']');
+            std::istringstream ws(line.substr(a + 9, b - a - 9)); std::string e;
+            while (ws >> e) t.witness.stack.push_back(e == "\"\"" ? valtype{} : ParseHex(e));
+        }
+        printf("replay %s\n", describe(t).c_str());
+        Evaluator ev(t);
+        if (fl.empty()) fl.emplace_back("flags", "NONE");
+        for (auto& [k, names] : fl) {
+            uint64_t v = 0; std::istringstream is(names); std::string n;
+            while (std::getline(is, n, ',')) { auto it = ScriptFlagNamesToEnum().find(n); if (it != ScriptFlagNamesToEnum().end()) v |= script_verify_flags{it->second}.as_int(); }
+            uint8_t r = ev.eval(v);
+            printf("  %s {%s} -> %s\n", k.c_str(), flag_str(v).c_str(), r == 1 ? "success" : ScriptErrorString((ScriptError)(r - 1)).c_str());
+        }
+        return 0;
+    }
     std::map<uint64_t, std::string> consensus = consensus_flag_sets();
     ECC_Context ecc;
     { CKey ik; valtype b(32, 0x33); ik.Set(b.begin(), b.end(), true); g_internal = XOnlyPubKey{ik.GetPubKey()}; }
@@ -582,7 +612,7 @@ int main(int argc, char** argv)
         if (res[STD] == 1)
             for (const auto& [c, where] : consensus)
                 if (res[c] > 1)
-                    vx::violation("standard-implies-consensus|" + t.name + "|" + flag_str(c), "accepted under STANDARD flags but rejected (" + ScriptErrorString((ScriptError)(res[c] - 1)) + ") under the consensus flags of " + where + " {" + flag_str(c) + "}: " + describe(t), describe(t));
+                    vx::violation("standard-implies-consensus|" + t.name + "|" + flag_str(c), "accepted under STANDARD flags but rejected (" + ScriptErrorString((ScriptError)(res[c] - 1)) + ") under the consensus flags of " + where + " {" + flag_str(c) + "}: " + describe(t), describe(t) + "\nflags_small " + flag_str(c) + "\nflags_big " + flag_str(STD));
         live_mask |= live;
         if (any_ok && any_fail) varying++;
     };
